@@ -189,7 +189,8 @@ def srvLoop {σ : Type} (parse : ParseFn σ)
   | _, _, acc, [] => { acc with ended := some (acc.ended.getD "io.eof") }
   | st, rb, acc, step :: rest =>
     match step with
-    | .decode => srvLoop parse respond rtu st rb acc rest
+    -- a command cancels the pending read: what the dropped future leaves behind is `rb.normalize`
+    | .decode => srvLoop parse respond rtu st rb.normalize acc rest
     | .failAfter n => srvLoop parse respond rtu st rb { acc with wleft := some n } rest
     | .shutdown => { acc with ended := some "shutdown" }
     | .readErr => { acc with ended := some "io.reset" }
